@@ -668,13 +668,98 @@ fn block_offsets(file: &[u8]) -> Vec<(usize, usize, usize, usize)> {
 	out
 }
 
+/// `ocfr cap …`: null-codec files of several blocks read through `Reader::new(ReaderRead { max_alloc_size, .. })`
+/// with a cap the caller set just above the header's largest field; length-delimited fields sit
+/// around that cap, in the first block and - what matters - in later ones (the per-block reader
+/// and the reader it is turned back into between blocks must both carry the cap).
+fn generate_cap(seed: u64, n: usize, emit: &mut dyn FnMut(String)) {
+	let mut rng = rng_from(seed, "ocfr-cap");
+	let nd = |reg: Reg| RawNode { reg, logical: None };
+	for _ in 0..n {
+		let shape = rng.gen_range(0..5);
+		let raw: RawSchema = match shape {
+			0 => vec![nd(Reg::String)],
+			1 => vec![nd(Reg::Bytes)],
+			2 => vec![nd(Reg::Record("R".into(), vec![("a".into(), 1), ("s".into(), 2)])), nd(Reg::Int), nd(Reg::String)],
+			3 => vec![nd(Reg::Array(1)), nd(Reg::Bytes)],
+			_ => vec![nd(Reg::Union(vec![1, 2])), nd(Reg::Null), nd(Reg::String)],
+		};
+		let Ok(schema) = build::to_schema_mut(&raw).freeze() else { continue };
+		let cap = schema.json().len() + rng.gen_range(0..6);
+		let k = rng.gen_range(3..7);
+		let big_at = rng.gen_range(0..k);
+		let mut config = serde_avro_fast::ser::SerializerConfig::new(&schema);
+		let mut datums = vec![];
+		for i in 0..k {
+			let len = if i == big_at || rng.gen_bool(0.15) {
+				*[cap - 1, cap, cap + 1, cap + 40, 2 * cap].choose(&mut rng).unwrap()
+			} else {
+				rng.gen_range(0..6)
+			};
+			let text: String = (0..len).map(|_| (b'a' + rng.gen_range(0..26)) as char).collect();
+			let v = match shape {
+				0 => SV::Str(text),
+				1 => SV::Bytes(text.into_bytes()),
+				2 => SV::Struct("R".into(), vec![("a".into(), SV::Int(IntTy::I32, crate::proto::BigI::Pos(i as u128))), ("s".into(), SV::Str(text))]),
+				3 => SV::Seq(Some(2), vec![SV::Bytes(vec![1, 2]), SV::Bytes(text.into_bytes())]),
+				_ if rng.gen_bool(0.3) => SV::None,
+				_ => SV::Some(Box::new(SV::Str(text))),
+			};
+			datums.push(serde_avro_fast::to_datum_vec(&v, &mut config).expect("conforming value"));
+		}
+		let sync: Vec<u8> = (0..16).map(|_| rng.gen()).collect();
+		let file = independent_file(&mut rng, "null", schema.json(), &datums, &sync);
+		// With a cap in place what a reader accepts depends on what its source has buffered: the
+		// model tracks the source's buffer exactly, across blocks too. Half of the schedules are
+		// arbitrary, half put a chunk boundary at the end of every block's data.
+		let mut bounds: Vec<usize> = block_offsets(&file).iter().map(|o| o.3).collect();
+		bounds.push(file.len());
+		let mut backends = vec![];
+		for _ in 0..rng.gen_range(2..5) {
+			let unit = *[1usize, 2, 3, 7, 16, 64, 300, 8192].choose(&mut rng).unwrap();
+			let mut sched = vec![];
+			if rng.gen_bool(0.5) {
+				let mut pos = 0;
+				for &b in &bounds {
+					while pos < b {
+						let c = (if rng.gen_bool(0.7) { unit } else { rng.gen_range(1..=40) }).min(b - pos);
+						sched.push(c);
+						pos += c;
+					}
+				}
+			} else {
+				for _ in 0..rng.gen_range(0..8) {
+					sched.push(rng.gen_range(1..=file.len() + 2));
+				}
+			}
+			backends.push(Backend::Reader { last: unit, sched, max_alloc: cap });
+		}
+		let mut w = W::default();
+		w.t("ocfr").t("cap").t("null").schema(&raw).xs(schema.json()).hint(&Hint::Any).n(backends.len());
+		for b in &backends {
+			write_backend(&mut w, b);
+		}
+		w.xb(&file).n(datums.len());
+		for d in &datums {
+			w.xb(d);
+		}
+		w.n(0);
+		emit(w.s);
+	}
+}
+
 pub fn generate_r(stream: &str, seed: u64, n: usize, emit: &mut dyn FnMut(String)) {
+	if stream == "ocfr-cap" {
+		return generate_cap(seed, n, emit);
+	}
 	let mut rng = rng_from(seed, stream);
 	let mut produced = 0;
 	while produced < n {
 		let big = stream == "ocfr-big";
 		let mut sg = SchemaGen::new(&mut rng, 8, false);
-		sg.decimals = false;
+		// decimals only where the file is damaged on purpose (an I/O error met while the bytes of a
+		// decimal are read must stop the reader like any other)
+		sg.decimals = stream == "ocfr-damage";
 		let raw = if big { vec![RawNode { reg: Reg::Bytes, logical: None }] } else { sg.gen_root() };
 		let Ok(schema) = build::to_schema_mut(&raw).freeze() else { continue };
 		let codec = match stream {
@@ -857,8 +942,17 @@ pub fn run_backend_on_file(b: &Backend, file: &[u8], hint: &Hint) -> String {
 			Err(e) => init_err(e),
 			Ok(r) => read_all(r, hint).join(" "),
 		},
-		Backend::Reader { last, sched, .. } => {
+		Backend::Reader { last, sched, max_alloc } => {
 			let cr = ChunkReader { data: file.to_vec(), pos: 0, avail: 0, sched: sched.into_iter().collect(), last };
+			if max_alloc != 512 * 1024 * 1024 {
+				// the allocation cap is the caller's
+				let mut rr = serde_avro_fast::de::read::ReaderRead::new(cr);
+				rr.max_alloc_size = max_alloc;
+				return match Reader::new(rr) {
+					Err(e) => init_err(e),
+					Ok(r) => read_all(r, hint).join(" "),
+				};
+			}
 			match Reader::from_reader(cr) {
 				Err(e) => init_err(e),
 				Ok(r) => read_all(r, hint).join(" "),
